@@ -90,6 +90,10 @@ def run(ctx):
   rule_universal(ctx)
   rule_excursion_gate(ctx, exact=True)     # C12: the p-values NIST assigns exist from exactly 500 cycles on (C13 only needs >= 500)
   rule_bits(ctx)
+  # a local read on a path that has not bound it raises UnboundLocalError instead of producing the result (analysis shared with C18)
+  from . import c18 as _c18
+  n_def = _c18.rule_defined(ctx, "R-C12-DEFINED", "C12")
+  ctx.expect("R-C12-DEFINED", 55, "functions of the statistical test modules")
   rule_range(ctx)
   rule_block(ctx)
   ctx.expect("R-C12-BITS", 2, "entry count + digit mapping")
